@@ -44,6 +44,22 @@ pub fn verif_topic_is_valid(topic: &str) -> bool {
     topic::is_valid(topic)
 }
 
+#[cfg(ntex_mqtt_verif)]
+#[doc(hidden)]
+/// Verification hook: the crate-private protocol version sniffing codec used by the
+/// combined server. Returns the detected protocol level (3 or 5).
+pub fn verif_sniff_version(
+    src: &mut ntex_bytes::BytesMut,
+) -> Result<Option<u8>, error::DecodeError> {
+    use ntex_codec::Decoder;
+    version::VersionCodec.decode(src).map(|v| {
+        v.map(|v| match v {
+            version::ProtocolVersion::MQTT3 => 3,
+            version::ProtocolVersion::MQTT5 => 5,
+        })
+    })
+}
+
 // http://www.iana.org/assignments/service-names-port-numbers/service-names-port-numbers.xhtml
 pub const TCP_PORT: u16 = 1883;
 pub const TLS_PORT: u16 = 8883;
